@@ -76,14 +76,16 @@ LHl == /\ IsEv("hl")
    messages, and per node the sequence numbers of one uninterrupted series - a packet garbled, repeated or lost by
    overlapping flushes / write calls breaks one of the three *)
 IncS(x) == IF x = 255 THEN 1 ELSE x + 1
+(* one pass over the messages (FoldLeft evaluates its sequence argument once): acc = [ok, last sequence number per node] *)
+SeqStep(acc, raw) ==
+    LET m == ParseMsg(raw)
+        p == IF m.addr \in DOMAIN acc.last THEN acc.last[m.addr] ELSE 0
+    IN [ok |-> acc.ok /\ (p = 0 \/ m.seq = 0 \/ m.seq = IncS(p)),
+        last |-> [a \in DOMAIN acc.last \cup {m.addr} |-> IF a = m.addr THEN m.seq ELSE acc.last[a]]]
 WireOk(w) ==
     IF w = <<>> THEN TRUE
     ELSE /\ WireWellFormed(w)
-         /\ LET F == Flatten(WirePackets(w))
-                ms == [i \in 1..Len(F) |-> ParseMsg(F[i])]
-            IN \A a \in {ms[i].addr : i \in 1..Len(ms)} :
-                  LET sq == SelectSeq(ms, LAMBDA m : m.addr = a) IN
-                  \A i \in 1..(Len(sq) - 1) : sq[i].seq = 0 \/ sq[i + 1].seq = 0 \/ sq[i + 1].seq = IncS(sq[i].seq)
+         /\ FoldLeft(SeqStep, [ok |-> TRUE, last |-> << >>], Flatten(WirePackets(w))).ok
 
 LQuiesce == /\ IsEv("quiesce")
             /\ pend = <<>>
